@@ -419,6 +419,50 @@ def input_fault_family(ctx, r):
                     ctx.disagree("input-fault", dict(bb.describe(ran), fault=kind), {"exit": res.exit}, {"exit": m["exit"]}, False, {"scenario": bb.scenario_dump(ran), "observable": "exit-code", "replay_kind": "expect-failure"})
 
 
+def big_block_faults(ctx, r):
+    """(iv, continued) a block larger than any read buffer (> 32 KiB, > 64 KiB) truncated inside its body — as the last block of
+    the range (tip, or height --end) and in the middle: the missing tail is a read failure at THAT height, never zeros"""
+    for cb in FILE_CBS:
+        for where in ("last", "middle", "end"):
+            n = 3
+            blocks = small_chain(r, "bitcoin", n)
+            tgt = {"last": n - 1, "middle": 1, "end": 1}[where]
+            for j in range(3):
+                blocks[tgt].txs.append(K.Tx([(GC.rb(r, 32), j, b"\x01\x01", 7)], [(j, b"\x6a" + GC.rb(r, r.choice([14000, 30000, 23000])))] * 1))
+            prev = blocks[0].hash()
+            for b in blocks[1:]:
+                b.prev = prev
+                b.merkle_root = None
+                prev = b.hash()
+            base = K.Scenario(coin="bitcoin", callback=cb)
+            GC.simple_layout(base, blocks)
+            if where == "end":
+                base.stop = tgt
+            name = K.blkname(0)
+            off = next(o for o, d in base.files[name]["segs"] if d[8:] == blocks[tgt].enc()) + 8
+            ln = len(blocks[tgt].enc())
+            cuts = sorted(set([off + 81, off + 4096, off + 8192, off + 32767, off + 32768, off + 32769, off + ln - 1, off + ln - 4, off + ln // 2] + [r.randrange(off + 100, off + ln) for _ in range(ctx.n(4, 40))]))
+            for c in cuts:
+                if not (off < c < off + ln):
+                    continue
+                s = K.Scenario(coin="bitcoin", callback=cb)
+                s.kvs = list(base.kvs)
+                s.stop = base.stop
+                s.files = {nm: {"size": f["size"], "segs": list(f["segs"])} for nm, f in base.files.items()}
+                f = s.files[name]
+                f["size"] = c
+                f["segs"] = [(o, d[:max(0, c - o)]) for o, d in f["segs"] if o < c]
+                s.meta = {"fault": "big-block-truncated", "where": where, "cut": c - off, "len": ln}
+                m = K.run_model([s])[0]
+                res = s.run_impl()
+                ctx.mark(("big-trunc", cb, where, c - off), True)
+                ctx.families["input-fault:big-block-truncated"] += 1
+                if m["exit"] == 0:
+                    ctx.disagree("input-fault", dict(bb.describe(s), fault="big-block-truncated"), {"exit": res.exit}, {"exit": m["exit"], "note": "model accepts a truncated block"}, False, {"scenario": bb.scenario_dump(s), "observable": "model-exit", "replay_kind": "expect-failure"})
+                    continue
+                expect_failure(ctx, "input-fault", s, res, "block of %d bytes at height %d truncated after %d bytes (%s)" % (ln, tgt, c - off, where), want_height=m.get("errheight"))
+
+
 def _with_far(s, h, delta=10**7):
     """copy of s whose record for height h names an offset past the end of its file (by `delta`)"""
     t = K.Scenario(coin=s.coin, callback=s.callback)
@@ -457,6 +501,7 @@ def correspondence(ctx):
     write_fault_family(ctx, r)
     crash_family(ctx, r)
     input_fault_family(ctx, r)
+    big_block_faults(ctx, r)
     rerun_family(ctx, r)
 
 
